@@ -22,7 +22,7 @@ CHECKS = {
          "Trusted: oracle/refparse.rs (written from the README and the conventions the project's tests document). Shapes the format leaves open (CR, empty section, tab-only lines) are checked for totality only.",
          "property-based testing: round-trip + differential against a reference parser; grammar-based corruption", "2 C14"),
  "C15": ("exploration",
-         "Files of every length 0..=1100 plus random lengths to 70000 read through short-read handles are hashed and compared with the harness's own SHA-256/base-62; all edge and random 256-bit values round-trip through the text form; arbitrary strings are accepted iff the independent decoder accepts them; directory hashes are order-independent and change under any single point change (content, name, entry added/removed, bytes moved between adjacent files). Thorough: libFuzzer target for the text form (4M runs) and `hash` through the built binary on real files.",
+         "Files of every length 0..=1100 plus random lengths to 70000 read through short-read handles are hashed and compared with the harness's own SHA-256/base-62; all edge and random 256-bit values round-trip through the text form; arbitrary strings are accepted iff the independent decoder accepts them; directory hashes are order-independent and change under any single point change (content, name, entry added/removed, bytes moved between adjacent files). Valid encodings with a character appended or prepended (blanks, line ends) must be rejected. `hash` through the built binary on real files and on real directories (compared with the same tree listed in memory) runs in both tiers; thorough adds a libFuzzer target for the text form (4M runs).",
          "Trusted: harness sha256.rs and b62.rs (self-tested against sha256sum). Modulo collisions.",
          "property-based testing: differential against independent SHA-256/base-62, round-trip, metamorphic tree changes", "2 C15"),
  "C16": ("exploration",
@@ -46,15 +46,15 @@ CHECKS = {
          "Command writes are excluded by the in-command flag of the instrumented file system.",
          "property-based testing: call-log audit and before/after snapshot comparison over generated histories", "2 C09"),
  "C20": ("exploration",
-         "With a recording Printer, every generated build's status lines are compared with what the call log shows happened to each target (command ran / renamed in from cache / untouched); failed, cancelled and out-of-scope rules must get no line and the number of reported failures must equal failing rules + missing leaves of the reference evaluation.",
+         "With a recording Printer, every generated build's status lines are compared with what the call log shows happened to each target (command ran / renamed in from cache / untouched); failed, cancelled and out-of-scope rules must get no line and the number of reported failures must equal failing rules + missing leaves of the reference evaluation. A real-file-system slice runs the built binary on generated projects in which one /bin/sh command ends by exit 3, SIGKILL, SIGTERM or SIGHUP before or after writing its targets: no status line for it or its dependents, exactly one per independent target.",
          "Banner text compared after trimming; colours ignored. Scheduled scenarios are added by the C03-C06 engine.",
          "property-based testing: printed output vs call-log oracle over generated histories", "2 C20"),
  "C03": ("exploration",
-         "Each generated scenario (graph x initial state x final build) is run from the same forked state under two serial schedules, every single-preemption schedule of the deterministic scheduler (sampled when over budget) and generated preemption-bounded / random-walk / PCT schedules; at every command start each declared source must hold its reference content and must not be modified afterwards. Conflict points (yields on a cache entry that two threads touch) are additionally preempted singly and in pairs, the second point taken from the yield log of the run with the first.",
+         "Each generated scenario (graph x initial state x final build) is run from the same forked state under two serial schedules, every single-preemption schedule of the deterministic scheduler (sampled when over budget) and generated preemption-bounded / random-walk / PCT schedules; at every command start each declared source must hold its reference content and must not be modified afterwards. Real-file-system slice: when a producer's /bin/sh command is killed by a signal after writing its targets, no dependent may be produced. Conflict points (yields on a cache entry that two threads touch) are additionally preempted singly and in pairs, the second point taken from the yield log of the run with the first.",
          "Interleavings are explored at yield points only (channel ops, spawn/join/exit, every System call); commands are atomic. Exhaustive only for single preemptions of small scenarios.",
          "property-based testing over schedules: controlled deterministic scheduler, single-preemption enumeration + generated schedules, oracle at command entry", "2 C03"),
  "C04": ("exploration",
-         "Generated placements of failing rules (non-zero exit, ungenerated target, flag-conditional, content-conditional) and missing leaves, under the C03 schedule set: the build must report exactly one matching error per failed rule / missing file, run no descendant, bring every independent rule up to date, and after the cause is repaired run the failed rules again and satisfy C01.",
+         "Generated placements of failing rules (non-zero exit, ungenerated target, flag-conditional, content-conditional) and missing leaves, under the C03 schedule set: the build must report exactly one matching error per failed rule / missing file, run no descendant, bring every independent rule up to date, and after the cause is repaired run the failed rules again and satisfy C01. The text shown to the user must have one line per error and name each missing file / ungenerated target. Rules with an empty command section and, on the real file system through the built binary, commands that exit non-zero or are killed by a signal are included.",
          "A failing command writes nothing; error order is not compared; CommandExecutedButErrored carries no name, so it is matched by count.",
          "property-based testing: fault placement x schedules against the reference evaluation, then repair-and-rebuild", "2 C04"),
  "C05": ("exploration",
@@ -78,11 +78,11 @@ CHECKS = {
          "Distinct clock in memory; on the real file system user actions are spaced so that mtimes differ at ruler's microsecond resolution. One open known finding (exec bit among byte-identical targets) is excluded by signature and counted.",
          "property-based testing: generated clean/build scenarios against the reference model, in memory and end-to-end on the real file system", "2 C10"),
  "C17": ("exploration",
-         "A generated rule gets an undeclared input feeding a chosen subset of its targets; after a successful build the input is changed and re-execution is forced (verified in the call log); the build must fail with exactly one Contradiction naming exactly the differing targets, leave the rule's history (read back through ruler's own reader) unchanged, run no descendant and leave unrelated rules alone; with the input restored and re-execution forced again the build must succeed.",
+         "A generated rule gets an undeclared input feeding a chosen subset of its targets; after a successful build the input is changed and re-execution is forced (verified in the call log); the build must fail with exactly one Contradiction naming exactly the differing targets, leave the rule's history (read back through ruler's own reader) unchanged, name exactly those targets in the text shown to the user, run no descendant and leave unrelated rules alone (an unrelated rule whose command was edited must build in the same invocation and must not build again in the repeated one); with the input restored and re-execution forced again the build must succeed.",
          "Declared sources are byte-identical across the builds; all 2^k subsets of affected targets including the empty one are generated.",
          "property-based testing: metamorphic scenario (perturb an undeclared input, force re-execution) with exact-error oracle", "2 C17"),
  "C19": ("exploration",
-         "On the real file system, ruler directories produced by generated build/clean/edit histories (built binary, /bin/sh commands) are served by a real `serve` child process; a minimal HTTP client requests every cached hash, absent hashes, every recorded (rule, sources) pair, unknown pairs and a generated batch of malformed and hostile names (traversal, encodings, over-long, near-miss hashes, names of planted canary files, some of them named like valid hashes) and compares status and body with the harness's own hashes; no canary byte may be served and the server must stay up.",
+         "On the real file system, ruler directories produced by generated build/clean/edit histories (built binary, /bin/sh commands) are served by a real `serve` child process; a minimal HTTP client requests every cached hash, absent hashes, every recorded (rule, sources) pair, unknown pairs and a generated batch of malformed and hostile names (traversal, encodings, over-long, near-miss hashes, names of planted canary files, some of them named like valid hashes) and compares status and body with the harness's own hashes; no canary byte may be served and the server must stay up. Cached files include empty, multi-block and non-UTF-8 contents. An identity entry with unique content tells the scenario's own server from a foreign process on a reused port.",
          "Only GET /files/<seg> and GET /rules/<seg>/<seg> are judged. Rule-endpoint request strings are formed with the crate's own ticket code (as a client would); expected bodies with the harness's own SHA-256/base-62.",
          "property-based testing / request fuzzing against a live server with an exact-response oracle", "2 C19"),
 }
